@@ -155,6 +155,14 @@ def glob_check(model, cases_by_pattern, out):
         except Exception as e:                       # compiling must never fail
             findings.append({'kind': 'glob', 'verdict': 'violation', 'pattern': p.hex(), 'what': 'compile raised %s' % type(e).__name__})
             continue
+        # the regex TEXT is the one the theorems of FR.Props.C16r read (`regex_text_denotes_redis_glob`)
+        xl = model.ask('rxtext %s' % hx(p))
+        out['evaluations'] += 1
+        if not xl.startswith('X ') or bytes.fromhex(xl[2:].strip()) != rx.pattern:
+            findings.append({'kind': 'glob', 'verdict': 'unconstrained', 'pattern': p.hex(), 'impl_regex': rx.pattern.hex(), 'model_regex': xl[2:].strip(),
+                             'what': 'correspondence:C16:regex-text (the theorems of FR.Props.C16r are about the model text)'})
+            if len(findings) >= 3:
+                return findings
         line = model.ask('globs %s %s' % (hx(p), ' '.join(hx(x) for x in subjects)))
         _, mbits, rbits = line.split(' ')
         out['evaluations'] += len(subjects)
